@@ -54,3 +54,88 @@ def count_true(fn, n, label=""):
     """Spec-level count of indices k in [0,n) with fn(k): a 'sum' reduction of 0/1."""
     t = mk((n,), "i", lambda I: ite(fn(I[0]), 1, 0))
     return ops.reduce("sum", t, 0, label=label)
+
+
+# ---------------------------------------------------------------------------
+# 2-run non-interference (C04): row b of run L and row b' of run R agree on
+# every input  ==>  they agree on every output (values and per-row shapes).
+# The two runs have independent batch sizes (incl. 1) and row positions.
+# ---------------------------------------------------------------------------
+
+
+def _flatten(prefix, v, out):
+    if isinstance(v, SymTD):
+        for k, x in v.data.items():
+            _flatten(f"{prefix}{k}", x, out)
+    elif isinstance(v, SymTensor):
+        out[prefix.rstrip(".") or "result"] = v
+    elif isinstance(v, dict):
+        for k, x in v.items():
+            _flatten(f"{prefix}{k}.", x, out)
+    elif isinstance(v, (list, tuple)):
+        for k, x in enumerate(v):
+            _flatten(f"{prefix}{k}.", x, out)
+    elif v is None:
+        pass
+    else:
+        out[prefix.rstrip(".") or "result"] = v
+
+
+def rowlocal(u, name, make_inputs, call, requires=None, tags=("C04",), skip_outputs=()):
+    """make_inputs(u, B) -> dict/TD of batch-first inputs; call(u, inputs) -> outputs (TD/tensor/dict)."""
+    ctx = cur()
+    sides = {}
+    for side in ("L", "R"):
+        ctx.prefix = side + "_"
+        Bs = u.dim("B")
+        ins = make_inputs(u, Bs)
+        if requires is not None:
+            u.requires(requires(u, ins, Bs))
+        pre = {}
+        _flatten("", u.snapshot(ins), pre)
+        outs_raw = call(u, ins)
+        outs = {}
+        _flatten("", outs_raw, outs)
+        sides[side] = (Bs, pre, outs)
+    ctx.prefix = ""
+    (BL, preL, outL), (BR, preR, outR) = sides["L"], sides["R"]
+    bL = z3.Int(f"{name}.rowL")
+    bR = z3.Int(f"{name}.rowR")
+    ctx.scalars[f"{name}.rowL"] = (bL, "i")
+    ctx.scalars[f"{name}.rowR"] = (bR, "i")
+    u.requires(AND(bL >= 0, bL < zint(BL), bR >= 0, bR < zint(BR)))
+    # hypothesis: the two rows carry the same instance/state
+    for k, xl in preL.items():
+        xr = preR[k]
+        if not isinstance(xl, SymTensor):
+            continue
+        rest = xl.shape[1:]
+        u.requires(u.forall(rest, lambda *I, xl=xl, xr=xr: xl.at(bL, *I) == xr.at(bR, *I)))
+    for k, ol in outL.items():
+        if k in skip_outputs:
+            continue
+        if k not in outR:
+            u.prove(f"{name}.rowlocal.{k}.present", False, tags)
+            continue
+        orr = outR[k]
+        if not isinstance(ol, SymTensor):
+            if is_z3(ol) or is_z3(orr):
+                u.prove(f"{name}.rowlocal.{k}.scalar", ol == orr, tags)
+            continue
+        if ol.rank != orr.rank or ol.rank == 0:
+            u.prove(f"{name}.rowlocal.{k}.rank", False, tags, note=f"{ol.shape} vs {orr.shape}: output has no batch dimension or ranks differ")
+            continue
+        u.prove(f"{name}.rowlocal.{k}.batchdim", AND(zint(ol.shape[0]) == zint(BL), zint(orr.shape[0]) == zint(BR)), tags,
+                note=f"{ol.shape} / {orr.shape}")
+        u.prove(f"{name}.rowlocal.{k}.shape", AND(*[zint(a) == zint(b) for a, b in zip(ol.shape[1:], orr.shape[1:])]), tags)
+        I, rng = [], []
+        for d, n in enumerate(ol.shape[1:]):
+            if isinstance(n, int) and n == 1:
+                I.append(0)
+            else:
+                v = z3.Int(f"{name}.{k}.r{d}")
+                ctx.scalars[f"{name}.{k}.r{d}"] = (v, "i")
+                I.append(v)
+                rng.append(z3.And(v >= 0, v < zint(n)))
+        gl, gr = ol.at(bL, *I), orr.at(bR, *I)
+        u.prove(f"{name}.rowlocal.{k}.elem", IMPL(AND(*rng), B_(gl) == B_(gr) if ol.dtype == "b" else gl == gr), tags)
